@@ -191,6 +191,13 @@ jobs:
   call2:
     uses: owner/repo/.github/workflows/other.yml@main
     secrets: inherit
+  call3:
+    uses: owner/repo/.github/workflows/third.yml@${{ 'v1' }}
+    with:
+      alpha: value
+      beta: ${{ github.ref }}
+    secrets:
+      key: ${{ secrets.TOKEN }}
 `
 
 const everyKeyB = `name: every key B
